@@ -271,7 +271,8 @@ func InjectDefect(t *rapid.T, s *ref.Schema, ty *ref.Type, v interface{}, defect
 			}
 		case "unknown-field":
 			if m, isMap := v.(map[string]interface{}); isMap && ty.Elem == nil && def != nil && def.Kind == "INPUT_OBJECT" {
-				c := map[string]interface{}{"nosuchfield": 1}
+				// (names with two leading underscores are reserved, not exempt: a schema cannot declare them, so they are unknown)
+				c := map[string]interface{}{rapid.SampledFrom([]string{"nosuchfield", "nosuchfield", "__typename", "__typenam", "__typenames", "__type", "__x", "_", "__"}).Draw(t, "unknownkey"): rapid.SampledFrom([]interface{}{1, "X", nil}).Draw(t, "unknownval")}
 				for k, vv := range m {
 					c[k] = vv
 				}
